@@ -869,7 +869,11 @@ class ParserFactory:
 
     # Called by the parser whenever a token doesn't match any rule.
     def p_error(self, token):
-        assert token is not None, "Unknown error, please report this."
+        if token is None:
+            # The text ended where the grammar needs more (for example a
+            # definition header with no body at the end of the file).
+            self.errors.append(('Unexpected end of file.', None, self.path))
+            return
         logger.debug('Unexpected %s(%r) at line %d',
                      token.type,
                      token.value,
